@@ -17,6 +17,7 @@ PERSIST = ('self.data_view', 'self.coeffs_view', 'self.calculated_view')
 def check(run):
     prog = Program()
     prog.load_many(FILES)
+    _PROG[0] = prog
     for f in FILES:
         run.use_file(f)
     run.explanation = (
@@ -102,6 +103,18 @@ def _once_and_nodes(run, ci, nd):
             run.undecided('C14-R5', 'Caching%dD nodes' % nd, 'node count %s not recognised' % norm(cnt))
 
 
+_PROG = [None]
+
+
+def _sample_name(block, call):
+    """the local that receives the sample of the wrapped function (whatever it is called, also after helper expansion)"""
+    if call:
+        for st in ast.walk(block):
+            if isinstance(st, ast.Assign) and st.value is call[0] and len(st.targets) == 1 and isinstance(st.targets[0], ast.Name):
+                return st.targets[0].id
+    return 'value'
+
+
 def _one(run, ci, nd):
     run.describe('C14-R1', 'values stored into persistent arrays do not depend on the query coordinates')
     run.describe('C14-R2', 'flag after fill; nodes sampled at grid coordinates; normalisation and its inverse')
@@ -113,6 +126,12 @@ def _one(run, ci, nd):
     ev = ci.methods.get('evaluate')
     if fn is None or ev is None:
         raise AnalysisError('anchored method vanished: Caching%dD._evaluate/evaluate' % nd)
+    if _PROG[0] is not None:
+        # blocks of _evaluate moved into private methods are read where they are called (the anchors of the rules themselves stay calls)
+        from ..inline import flatten, class_lookup
+        keep = ('_constraints3d', '_evaluate_polynomial_derivative', '_evaluate')
+        fn = flatten(fn, class_lookup(_PROG[0], ci), keep=keep)
+        ev = flatten(ev, class_lookup(_PROG[0], ci), keep=keep)
     run.functions += 2
     coords = [a.arg for a in fn.args.args[1:1 + nd]]
     # ---------------- R1 taint
@@ -227,7 +246,7 @@ def _one(run, ci, nd):
                  'shifted by the lower function boundary' % nd)
     elif stored is None or added is None or not scale:
         run.undecided('C14-R2', 'Caching%dD normalisation' % nd, 'store of the normalised sample / de-normalisation of the coefficients not recognised')
-    elif stored.eq((L('value') - L('self.data_min')) * L('self.data_delta_inv')) and norm(dstore[0].targets[0]) == 'self.data_view[%s]' % idx \
+    elif stored.eq((L(_sample_name(blk[0], call)) - L('self.data_min')) * L('self.data_delta_inv')) and norm(dstore[0].targets[0]) == 'self.data_view[%s]' % idx \
             and added.eq(L('self.data_min')):
         run.ok('C14-R2', 'Caching%dD normalisation' % nd, 'stored (v - min) / delta; coefficients * delta, constant term + min')
     else:
@@ -519,10 +538,29 @@ def _hermite(run, ci, nd, fn, blk, K, path):
         coords = [a.arg for a in fn.args.args[1:1 + nd]]
         e = SymEval()
         run_block(e, [s for s in fn.body if isinstance(s, ast.Assign) and isinstance(s.targets[0], ast.Name) and s.targets[0].id.startswith('p')])
-        got = e.ev(rets[-1].value)
+        # a local view of the cell's coefficients (c = self.coeffs_view[i, j, :]) read as c[k] is self.coeffs_view[i, j, k]
+        import copy as _copy
+        views = {}
+        for s_ in fn.body:
+            if isinstance(s_, ast.Assign) and len(s_.targets) == 1 and isinstance(s_.targets[0], ast.Name) and isinstance(s_.value, ast.Subscript):
+                ix = s_.value.slice.elts if isinstance(s_.value.slice, ast.Tuple) else [s_.value.slice]
+                if ix and isinstance(ix[-1], ast.Slice) and ix[-1].lower is None and ix[-1].upper is None and ix[-1].step is None:
+                    views[s_.targets[0].id] = (s_.value.value, list(ix[:-1]))
+
+        class _V(ast.NodeTransformer):
+            def visit_Subscript(self, n):
+                self.generic_visit(n)
+                if isinstance(n.value, ast.Name) and n.value.id in views and not isinstance(n.slice, (ast.Tuple, ast.Slice)):
+                    b_, ix_ = views[n.value.id]
+                    return ast.copy_location(ast.Subscript(value=_copy.deepcopy(b_), slice=ast.Tuple(elts=[_copy.deepcopy(x) for x in ix_] + [n.slice], ctx=ast.Load()),
+                                                           ctx=ast.Load()), n)
+                return n
+        retv = _V().visit(_copy.deepcopy(rets[-1].value)) if views else rets[-1].value
+        ast.fix_missing_locations(retv)
+        got = e.ev(retv)
         want = C(0)
         cellidx = None
-        for sub in ast.walk(rets[-1].value):
+        for sub in ast.walk(retv):
             if isinstance(sub, ast.Subscript) and norm(sub.value) == 'self.coeffs_view':
                 idxs = sub.slice.elts if isinstance(sub.slice, ast.Tuple) else [sub.slice]
                 cellidx = ','.join(SymEval().ev(x).key() for x in idxs[:-1])
@@ -534,6 +572,8 @@ def _hermite(run, ci, nd, fn, blk, K, path):
             want = want + m
         if got.eq(want):
             run.ok('C14-R4', 'Caching%dD evaluation polynomial' % nd, 'sum_k c_k * monomial_k(p) with the same column map')
+        elif cellidx is None or any(not (l.startswith('self.coeffs_view[') or l in coords) for l in got.leaves()):
+            run.undecided('C14-R4', 'Caching%dD evaluation polynomial' % nd, 'returned expression not over the cell coefficients: %s' % sorted(got.leaves())[:3])
         else:
             run.fail('C14-R4', K + '_evaluate|polynomial', path, rets[-1].lineno,
                      'the returned polynomial does not pair every coefficient with the basis monomial of its column')
